@@ -327,6 +327,110 @@ func runC14(p *core.Prog, r *core.Report) {
 				}
 			}
 		})
+		// the same dispatch written as a predicate of the package (`fits := kindFitsLayer(mod, i)`): under each kind case the
+		// predicate returns a parity test of its layer parameter, and computeStages skips the module where it answers false
+		if len(parity) == 0 {
+			core.Instrs(pc.fn, func(in ssa.Instruction) {
+				hc, ok := in.(*ssa.Call)
+				if !ok || len(parity) > 0 {
+					return
+				}
+				h := core.StaticFn(hc.Common())
+				if h == nil || h.Blocks == nil || h.Pkg != pc.fn.Pkg || h.Parent() != nil {
+					return
+				}
+				if bt, ok := hc.Type().Underlying().(*types.Basic); !ok || bt.Kind() != types.Bool {
+					return
+				}
+				// caller side: on the edge where the predicate is false the module is not appended in this iteration
+				skipsOnFalse := false
+				for _, ref := range *hc.Referrers() {
+					var ifi *ssa.If
+					falseIdx := 1
+					switch x := ref.(type) {
+					case *ssa.If:
+						ifi = x
+					case *ssa.UnOp:
+						if x.Op == token.NOT {
+							for _, r2 := range *x.Referrers() {
+								if i2, ok := r2.(*ssa.If); ok {
+									ifi, falseIdx = i2, 0
+								}
+							}
+						}
+					}
+					if ifi == nil {
+						continue
+					}
+					sb := ifi.Block().Succs[falseIdx]
+					q := core.PathQuery{Fn: pc.fn, CutInstr: func(x ssa.Instruction) bool { return x == pc.modLoop.Header.Instrs[0] }}
+					if _, reach := q.CanReach(sb.Instrs[0], func(x ssa.Instruction) bool { return x == pc.appendIn }); !reach && sb.Instrs[0] != pc.appendIn {
+						skipsOnFalse = true
+					}
+					if sb == pc.modLoop.Header {
+						skipsOnFalse = true
+					}
+				}
+				if !skipsOnFalse {
+					return
+				}
+				// predicate side: per kind case, the returned parity test
+				local := map[string]string{}
+				core.Instrs(h, func(x ssa.Instruction) {
+					ta, ok := x.(*ssa.TypeAssert)
+					if !ok || !ta.CommaOk {
+						return
+					}
+					name := ""
+					if pt, ok := ta.AssertedType.(*types.Pointer); ok {
+						if n, ok := pt.Elem().(*types.Named); ok {
+							name = n.Obj().Name()
+						}
+					}
+					if !strings.HasPrefix(name, "Module_Kind") {
+						return
+					}
+					for _, ref := range *ta.Referrers() {
+						ex, ok := ref.(*ssa.Extract)
+						if !ok || ex.Index != 1 {
+							continue
+						}
+						for _, rr := range *ex.Referrers() {
+							ifi, ok := rr.(*ssa.If)
+							if !ok {
+								continue
+							}
+							body := ifi.Block().Succs[0]
+							ret, ok := body.Instrs[len(body.Instrs)-1].(*ssa.Return)
+							if !ok || len(ret.Results) != 1 {
+								continue
+							}
+							bo, ok := core.ReturnValues(ret)[0].(*ssa.BinOp)
+							if !ok || (bo.Op != token.EQL && bo.Op != token.NEQ) {
+								continue
+							}
+							rem, ok := bo.X.(*ssa.BinOp)
+							k, isK := bo.Y.(*ssa.Const)
+							if !ok || !isK || rem.Op != token.REM || !isConstInt(rem.Y, 2) {
+								continue
+							}
+							// the layer counter is handed to the predicate
+							if core.CallerValue(pc.fn, rem.X) == rem.X {
+								continue
+							}
+							kv := k.Value.ExactString()
+							if bo.Op == token.EQL { // fits iff rem == k: skipped on the other parity
+								kv = map[string]string{"0": "1", "1": "0"}[kv]
+							}
+							local[name] = "skip-on-" + kv
+						}
+					}
+				})
+				for k, v := range local {
+					parity[k] = v
+				}
+			})
+		}
 		var ks []string
 		for k := range parity {
 			ks = append(ks, k)
